@@ -38,63 +38,73 @@ func runLoginShapes(args []string) error {
 			for _, noRT := range []bool{false, true} {
 				for _, exp := range []string{"", "absent", "zero", "negative", "huge"} {
 					for _, tau := range []int64{30, 3600, 86400} {
-						synctest.Run(func() {
-							s, err := newStack(stackOpts{redis: true, maxLifetime: maxlife, inactivity: inact, useSecret: true, updAtomic: true, fwdAuth: true})
-							if err != nil {
-								rerr = err
-								return
+						for _, skew := range []time.Duration{0, -10 * time.Minute, 7 * time.Minute} { // the store's clock relative to the replica's
+							if skew != 0 && (exp != "" || inact != 0) {
+								continue
 							}
-							defer s.close()
-							s.idp.tau = tau
-							s.idp.loginNoRT = noRT
-							s.idp.loginExpiresIn = exp
-							t0 := time.Now()
-							ttls := func() map[string]int64 {
-								s.gredis.syncTime()
-								m := map[string]int64{}
-								for _, k := range s.mr.Keys() {
-									d := s.mr.TTL(k)
-									if d == 0 {
-										m[k] = -1 // miniredis: no expiry
-									} else {
-										m[k] = int64(d)
-									}
+							synctest.Run(func() {
+								s, err := newStack(stackOpts{redis: true, maxLifetime: maxlife, inactivity: inact, useSecret: true, updAtomic: true, fwdAuth: true})
+								if err != nil {
+									rerr = err
+									return
 								}
-								return m
-							}
-							rec := map[string]any{"kind": "shape", "no_refresh_token": noRT, "expires_in": exp, "tau": tau, "maxlife_ns": int64(maxlife), "inactivity_ns": int64(inact)}
-							lr, err := s.login("sid-1", "idporten-loa-high")
-							rec["login"] = "ok"
-							if err != nil {
-								rec["login"] = err.Error()
-							}
-							var steps []map[string]any
-							note := func(label string) {
-								steps = append(steps, map[string]any{"at": label, "elapsed_ns": int64(time.Since(t0)), "ttls": ttls()})
-							}
-							note("after-login")
-							if lr != nil {
-								tid := 100
-								for round := 0; round < 3; round++ {
-									for _, kind := range []string{"p", "i", "r", "f"} {
-										tid++
-										th := s.spawn(tid, reqSpec{kind: kind, cookie: lr.cookie})
-										for i := 0; i < 60 && !th.done; i++ {
-											s.runOne(tid, 0)
+								defer s.close()
+								if skew != 0 {
+									// the store counts time on its own clock: an expiry must be given to it as a DURATION
+									s.gredis.clockSkew = skew
+									s.gredis.syncTime()
+								}
+								s.idp.tau = tau
+								s.idp.loginNoRT = noRT
+								s.idp.loginExpiresIn = exp
+								t0 := time.Now()
+								ttls := func() map[string]int64 {
+									s.gredis.syncTime()
+									m := map[string]int64{}
+									for _, k := range s.mr.Keys() {
+										d := s.mr.TTL(k)
+										if d == 0 {
+											m[k] = -1 // miniredis: no expiry
+										} else {
+											m[k] = int64(d)
 										}
 									}
-									note(fmt.Sprintf("after-requests-%d", round))
-									time.Sleep(time.Duration(tau)*time.Second/2 + 61*time.Second)
-									note(fmt.Sprintf("later-%d", round))
+									return m
 								}
+								rec := map[string]any{"kind": "shape", "no_refresh_token": noRT, "expires_in": exp, "tau": tau, "maxlife_ns": int64(maxlife), "inactivity_ns": int64(inact), "store_clock_skew_ns": int64(skew)}
+								lr, err := s.login("sid-1", "idporten-loa-high")
+								rec["login"] = "ok"
+								if err != nil {
+									rec["login"] = err.Error()
+								}
+								var steps []map[string]any
+								note := func(label string) {
+									steps = append(steps, map[string]any{"at": label, "elapsed_ns": int64(time.Since(t0)), "ttls": ttls()})
+								}
+								note("after-login")
+								if lr != nil {
+									tid := 100
+									for round := 0; round < 3; round++ {
+										for _, kind := range []string{"p", "i", "r", "f"} {
+											tid++
+											th := s.spawn(tid, reqSpec{kind: kind, cookie: lr.cookie})
+											for i := 0; i < 60 && !th.done; i++ {
+												s.runOne(tid, 0)
+											}
+										}
+										note(fmt.Sprintf("after-requests-%d", round))
+										time.Sleep(time.Duration(tau)*time.Second/2 + 61*time.Second)
+										note(fmt.Sprintf("later-%d", round))
+									}
+								}
+								rec["steps"] = steps
+								b, _ := json.Marshal(rec)
+								w.Write(b)
+								w.WriteByte('\n')
+							})
+							if rerr != nil {
+								return rerr
 							}
-							rec["steps"] = steps
-							b, _ := json.Marshal(rec)
-							w.Write(b)
-							w.WriteByte('\n')
-						})
-						if rerr != nil {
-							return rerr
 						}
 					}
 				}
